@@ -193,6 +193,7 @@ def execute(rnd, programs, prop, tier, label):
     recs, by_name, regs = [], {}, {}
     with open(path, "w") as f:
         for prog in programs:
+            prog["first_rec"] = len(recs)
             rendered = mgen.render_program(prog)
             reg = mgen.dump_registry(prog)
             regs[prog["id"]] = reg
@@ -215,6 +216,46 @@ def sample_of(prog, reg):
             return {"program": prog["id"], "source": b.get("snippet", []), "written_at": [b["file"], b["line"], b["col"]],
                     "registry_entry": e}
     return None
+
+
+# --------------------------------------------------------------- validation
+
+MAX_REPORTED = 6
+
+
+def validate_chunks(res, prop, programs, recs, by_name, label):
+    """The runs of each program form one trace (records are independent);
+    the traces are validated by parallel TLC processes.  A trace TLC does not
+    accept is re-examined record by record through check_runner.validate_runs
+    (offending record removed, the rest examined), at most three offending
+    runs per program and MAX_REPORTED in total - one defect in the macros
+    typically shows in every program."""
+    from concurrent.futures import ThreadPoolExecutor
+    chunks = []
+    bounds = [p["first_rec"] for p in programs] + [len(recs)]
+    for k, prog in enumerate(programs):
+        part = recs[bounds[k]:bounds[k + 1]]
+        if not part:
+            continue
+        path = os.path.join(V.WORK, f"{prop}.macro.{prog['crate']}.ndjson")
+        with open(path, "w") as f:
+            for r in part:
+                f.write(json.dumps(r) + "\n")
+        chunks.append((path, part))
+    workers = max(1, min(8, (os.cpu_count() or 2) // 2))
+    with ThreadPoolExecutor(max_workers=workers) as ex:
+        results = list(ex.map(lambda c: V.tlc_trace("RunnerTrace", f"RunnerTrace_{prop}", c[0]), chunks))
+    found, skipped = 0, 0
+    for (path, part), r in zip(chunks, results):
+        if r["accepted"]:
+            res.add_trace(label, r, len(part), sum(len(x["lines"]) + len(x["invokes"]) + len(x["terse"]) for x in part))
+        elif found >= MAX_REPORTED:
+            skipped += 1
+        else:
+            found += check_runner.validate_runs(res, prop, path, label, by_name, max_rounds=3)
+    if skipped:
+        res.notes.append(f"{label}: {skipped} further program(s) with offending runs not re-examined after {found} reported violations")
+    return found
 
 
 # --------------------------------------------------------- negative controls
@@ -320,7 +361,7 @@ def run_macro_level(res, prop, tier, seed):
     bad_rc = [r["id"] for r in recs if r["rc"] != 0 and not r["panicked"]]
     if bad_rc:
         res.notes.append(f"macro level: runs with non-zero exit and no recorded panic: {bad_rc[:5]}")
-    found = check_runner.validate_runs(res, prop, path, "macro:impl->spec", by_name)
+    found = validate_chunks(res, prop, programs, recs, by_name, "macro:impl->spec")
     if not found:
         res.extra["macro_level"]["negative_controls"] = negative_controls(res, prop, recs)
     res.extra["macro_level"]["wall_s"] = round(time.time() - t0, 1)
